@@ -104,7 +104,7 @@ def case_strategy(draw):
     mode = draw(st.sampled_from(["centers", "centers", "ids", "num"]))
     many_centres = mode == "centers" and draw(st.integers(0, 11)) == 11  # hundreds of centres
     if many_centres:
-        scene = draw(gen.lattice_scene(draw(st.sampled_from([128, 129, 256, 257, 300]))))
+        scene = draw(gen.lattice_scene(draw(st.sampled_from([300, 257, 256, 129, 128]))))
         cat = scene["cats"][0]
         n, degrees = len(cat["ra"]), False
         table = {"ra": cat["ra"], "dec": cat["dec"], "w": cat["w"], "z": None, "pid": None, "dtypes": {c: "f8" for c in ("ra", "dec", "w", "z")}}
